@@ -4,6 +4,7 @@ from typing import Iterable, Iterator, Mapping, Optional, Union, get_args
 from typing_extensions import Self
 
 from . import internal, meta_item_internal
+from .internal import properties as _properties
 from .generated import custom
 from .generated.custom import CustomLabel, CustomRawValue
 from .block_comment import BlockComment
@@ -44,6 +45,8 @@ def _unsimplify_value(value: CustomValue | CustomRawValue) -> CustomRawValue:
 
 
 def _disambiguate_values(values: Iterable[CustomRawValue]) -> Iterator[CustomRawValue]:
+    values = list(values)
+    _properties._check_detachable(values)  # a value that lives in another tree is refused before it is rewritten
     prev = None
     for value in values:
         if isinstance(prev, NumberExpr):
